@@ -348,6 +348,45 @@ class Interp:
             for v in e:
                 self.mentioned(v, out)
 
+    def is_bstr_pat(self, p):
+        if p['k'] == 'or':
+            return all(self.is_bstr_pat(q) for q in p['ps'])
+        if p['k'] == 'ref':
+            return self.is_bstr_pat(p['p'])
+        return p['k'] == 'lit' and p['e']['k'] == 'bstr'
+
+    def bstr_pats(self, p):
+        if p['k'] == 'or':
+            out = []
+            for q in p['ps']:
+                out += self.bstr_pats(q)
+            return out
+        if p['k'] == 'ref':
+            return self.bstr_pats(p['p'])
+        return [p['e']['v']]
+
+    def strip_chain(self, e):
+        """[(receiver expr, literal prefix)] for X.strip_prefix(b"a")[.or_else(|| Y.strip_prefix(b"b"))]*, else None"""
+        if e['k'] != 'mcall':
+            return None
+        if e['m'] == 'strip_prefix' and len(e['args']) == 1:
+            a = e['args'][0]
+            if a['k'] == 'ref':
+                a = a['e']
+            if a['k'] != 'bstr':
+                return None
+            return [(e['recv'], a['v'])]
+        if e['m'] == 'or_else' and len(e['args']) == 1 and e['args'][0]['k'] == 'closure' and not e['args'][0]['params']:
+            first = self.strip_chain(e['recv'])
+            body = e['args'][0]['body']
+            if body['k'] == 'block' and len(body['stmts']) == 1 and body['stmts'][0]['k'] == 'expr':
+                body = body['stmts'][0]['e']
+            second = self.strip_chain(body)
+            if first is None or second is None:
+                return None
+            return first + second
+        return None
+
     def slice_pat(self, p, off):
         """language (over the whole input) of a pattern matched against the view at offset `off`, and the bindings it makes"""
         k = p['k']
@@ -394,6 +433,33 @@ class Interp:
             t = rx(('cat', [('rep', ANY, pos, pos), ('set', bset), ('star', ANY)]))
             f = rx(('cat', [('rep', ANY, pos, pos), ('set', ALL - bset), ('star', ANY)]))
             return t, f
+        if k == 'macro' and e['name'] == 'matches' and 'matches' in e and not e['matches']['guard'] and self.is_bstr_pat(e['matches']['pat']):
+            # matches!(v, b"STRING" | b"ARRAY")
+            off = self.view(e['matches']['e'], env)
+            lits_ = self.bstr_pats(e['matches']['pat'])
+            lang = DFA.empty()
+            for bs in lits_:
+                lang = lang.union(rx(lit(bs) if bs else EPS))
+            lang = prefix_any(off, lang)
+            return lang, lang.complement()
+        if k == 'mcall' and e['m'] == 'is_some_and' and len(e['args']) == 1 and e['args'][0]['k'] == 'closure' and len(e['args'][0]['params']) == 1 and self.strip_chain(e['recv']) is not None:
+            # v.strip_prefix(b"0x").or_else(|| v.strip_prefix(b"0X")).is_some_and(|rest| ..): alternatives in order, the first that matches binds rest
+            alts = self.strip_chain(e['recv'])
+            p = e['args'][0]['params'][0]
+            while p['k'] in ('ref', 'typed'):
+                p = p['p']
+            if p['k'] != 'ident':
+                raise Undecided('is_some_and closure parameter')
+            T = DFA.empty(); F = DFA.empty(); remaining = DFA.universal()
+            for recv_e, bs in alts:
+                base = self.view(recv_e, env)
+                has = prefix_any(base, rx(('cat', [lit(bs) if bs else EPS, ('star', ANY)])))
+                env_i = dict(env); env_i[p['name']] = ('slice', base + len(bs))
+                t1, f1 = self.eval_bool(e['args'][0]['body'], env_i)
+                here = remaining.intersect(has)
+                T = T.union(here.intersect(t1)); F = F.union(here.intersect(f1))
+                remaining = remaining.intersect(has.complement())
+            return T, F.union(remaining)
         if k == 'macro' and e['name'] == 'matches' and 'matches' in e and not e['matches']['guard'] and e['matches']['pat']['k'] == 'slice':
             off = self.view(e['matches']['e'], env)
             lang, binds = self.slice_pat(e['matches']['pat'], off)
